@@ -114,6 +114,48 @@ def _digit_guarded(f, call):
     return False
 
 
+def _set_difference(e, env):
+    """(A, B) when the expression denotes the set of items of A that are not in B (sorted(), a bound name and both spellings of the difference are looked through)."""
+    for _ in range(4):
+        if isinstance(e, ast.Name) and e.id in env:
+            e = env[e.id]
+        elif isinstance(e, ast.Call) and src(e.func) in ('sorted', 'list', 'tuple', 'frozenset') and len(e.args) == 1 and not e.keywords:
+            e = e.args[0]
+        else:
+            break
+    asset = lambda x: src(x.args[0]) if isinstance(x, ast.Call) and src(x.func) in ('set', 'frozenset') and len(x.args) == 1 else None
+    if isinstance(e, ast.BinOp) and isinstance(e.op, ast.Sub) and asset(e.left) and asset(e.right):
+        return asset(e.left), asset(e.right)
+    if isinstance(e, ast.Call) and isinstance(e.func, ast.Attribute) and e.func.attr == 'difference' and len(e.args) == 1 and asset(e.func.value):
+        return asset(e.func.value), asset(e.args[0]) or src(e.args[0])
+    return None
+
+
+def _rejected_differences(fn):
+    """The pairs (A, B) for which a non-empty set(A) - set(B) raises in the function."""
+    out = set()
+
+    def scan(stmts, env):
+        env = dict(env)
+        for s_ in stmts:
+            if isinstance(s_, ast.Assign) and len(s_.targets) == 1 and isinstance(s_.targets[0], ast.Name):
+                env[s_.targets[0].id] = s_.value
+            elif isinstance(s_, ast.For) and s_.body and isinstance(s_.body[-1], ast.Raise) and all(isinstance(x, (ast.Assign, ast.Raise)) for x in s_.body):
+                d = _set_difference(s_.iter, env)
+                if d:
+                    out.add(d)
+            elif isinstance(s_, ast.If) and s_.body and isinstance(s_.body[-1], ast.Raise) and all(isinstance(x, (ast.Assign, ast.Raise)) for x in s_.body):
+                d = _set_difference(s_.test, env)
+                if d:
+                    out.add(d)
+            for fld in ('body', 'orelse', 'finalbody'):
+                sub = getattr(s_, fld, None)
+                if isinstance(sub, list) and sub and isinstance(sub[0], ast.stmt) and not isinstance(s_, (ast.FunctionDef, ast.ClassDef)):
+                    scan(sub, env)
+    scan(fn.body, {})
+    return out
+
+
 def _facts_imply(facts, goal):
     """Do the tests known to have succeeded / failed on every path (text -> truth) imply the goal?  Integer comparisons: `a >= b` is `not a < b`."""
     import sa.boolnf as B
@@ -198,9 +240,9 @@ def check_v2_guards(model, rep):
     f = fn('parse_expression')
     facts, calls, n = _facts_before_call(f, lambda c: src(c.func) == 'self.array.add')
     loops = [s for s in find_stmts(f.body, lambda s: isinstance(s, ast.For))]
-    diffs = [src(l.iter) for l in loops]
-    ok = 'sorted(set(indices) - set(term_indices))' in diffs and 'sorted(set(term_indices) - set(indices))' in diffs and \
-        all(any(isinstance(b, ast.Raise) for b in l.body) for l in loops if 'set(' in src(l.iter))
+    # both set differences lead to a raise, however the emptiness test is written: `for i in sorted(A - B): raise`, `if A - B: raise`,
+    # `m = set(A).difference(B)` + `if m: raise`
+    ok = _rejected_differences(f.node) >= {('indices', 'term_indices'), ('term_indices', 'indices')}
     need(f, 'add: index-sets', ok, 'both index-set differences between a term and the first term raise', 'terms with different index sets are no longer rejected in both directions')
     lens = [l for l in loops if src(l.iter).replace(' ', '') == 'zip(shape,term_shape,indices)']
     ok = len(lens) == 1 and any(isinstance(b, ast.If) and src(b.test).replace(' ', '') in ('n!=m', 'm!=n') and any(isinstance(x, ast.Raise) for x in b.body) for b in lens[0].body)
